@@ -32,5 +32,34 @@ CHECKS['C05'] = {
     'technique': 'path-sensitive summaries of the best-of searches vs composition-rule table',
 }
 
+CHECKS['C07'] = {
+    'level': 'Typestate + re-entrancy analysis of the hand-written phase machine: the phase graph and hand-over conditions extracted from the '
+             '_begin/_update/_end methods (all paths, loop bodies 0/1x) against the documented graph; operation shape (log + own update step last), '
+             'progress on the pending structure per operation, no raise after first write / in the cascade; and the stale-guard rule: every operation '
+             'called from inside the cascade must be called under a statement of its phase precondition (negated raise guards of its verifier) that '
+             'is fresh w.r.t. the transitive MOD sets of the calls since.',
+    'note': 'Decides local hand-over, progress and re-entrancy for every path and every automation subset at once. Does NOT decide the numeric '
+            'termination bound of a betting round, "exactly one phase" as a global invariant, or deck-size preconditions. Phase preconditions are '
+            'the state-only top-level raise guards of the verifier chain; asserts are beliefs.',
+    'technique': 'typestate/phase-graph extraction + stale-guard (re-entrancy) dataflow over MOD* sets',
+}
+CHECKS['C08'] = {
+    'level': 'Triple agreement: (operation, verifier, query) triples discovered by role and compared with the documented table; name-to-name forwarding '
+             'of arguments and of verifier returns; verifier call dominates every write/mutating call on every path; empty transitive MOD set for every '
+             'verifier, query, property and public getter; RAISES* of verifiers within {ValueError, UserWarning} and covered by every wrapper; no write '
+             'indexed by a raw argument; lookup-and-remove loops covered by a multiplicity bound.',
+    'note': 'Decides the contract for all states and argument values that the structure can see. Does NOT decide exceptions from ill-typed arguments '
+            'or from library calls (next(), list.index) beyond the loop-membership rule; truth of asserts is not assumed.',
+    'technique': 'sibling cross-check of verify/can/operate triples + MOD/RAISES effect closure + dominance on enumerated paths',
+}
+CHECKS['C09'] = {
+    'level': 'Non-interference: the automation tuple is read only in phase update steps as a membership test; members <-> guarded sites <-> documented '
+             'operations are in bijection; automated calls are the public operations with default arguments, in the update step of their own phase, '
+             'under a freshly re-evaluated precondition; nothing reachable from an operation outside the update steps consults the tuple.',
+    'note': 'Decides that automation can only change who invokes the same method with the same defaults at the moment it becomes available, for all 2^11 '
+            'subsets at once. Does NOT decide the relative order of two simultaneously available steps versus an arbitrary manual order.',
+    'technique': 'information-flow confinement of the automation flag + site/operation bijection + stale-guard dataflow',
+}
+
 ALL = [f'C{i:02d}' for i in range(1, 21)]
 NOT_APPLICABLE = {p: PENDING for p in ALL if p not in CHECKS}
